@@ -41,14 +41,33 @@ fn short_hex(h: &[u8; 32]) -> String {
     out
 }
 
+/// Staging sibling of `dst`: `<dst>.copia-tmp`. A file name too long to take the
+/// suffix (more than NAME_MAX - 10 bytes, e.g. the staging file a killed run
+/// left for a 240-byte name) gets a fixed-length reserved name derived from it
+/// instead; such a file could otherwise never be delivered and every later run
+/// stopped with `File name too long`.
+fn staging_path(dst: &Path) -> PathBuf {
+    const SUFFIX: &str = ".copia-tmp";
+    const NAME_MAX: usize = 255;
+    match dst.file_name() {
+        Some(name) if name.len() + SUFFIX.len() > NAME_MAX => {
+            let h = blake3::hash(name.as_encoded_bytes()).to_hex();
+            dst.with_file_name(format!(".{}{SUFFIX}", &h[..32]))
+        }
+        _ => {
+            let mut tmp = dst.as_os_str().to_owned();
+            tmp.push(SUFFIX);
+            PathBuf::from(tmp)
+        }
+    }
+}
+
 /// Atomic local copy: temp sibling + rename (never a torn destination).
 fn copy_atomic(src: &Path, dst: &Path) -> std::io::Result<()> {
     if let Some(p) = dst.parent() {
         std::fs::create_dir_all(p)?;
     }
-    let mut tmp = dst.as_os_str().to_owned();
-    tmp.push(".copia-tmp");
-    let tmp = PathBuf::from(tmp);
+    let tmp = staging_path(dst);
     std::fs::copy(src, &tmp)?;
     // tmp -> sync_all -> rename: the archive is synced before it is renamed
     // into place, so the data it describes must be durable first.
